@@ -103,6 +103,7 @@ Plan parse_plan(const std::string &text) {
             p.o0 = kv.u64("o0", 0);
             p.ethpad = kv.u64("ethpad", 0);
             p.read0 = atof(kv.str("read0", "0").c_str());
+            p.clkgran = kv.u64("clkgran", 1);
         } else if (kv.op == "can") {
             CanW w;
             w.t = kv.u64("t");
@@ -388,6 +389,8 @@ static void apply_transport(RunState &rs, int node, Frame &f) {
     std::vector<uint64_t> dup_delays;
     for (auto &m : p.mut) {
         if (m.node != node || m.dg != f.src_index) continue;
+        // faults stop when the quiet phase begins: a datagram that a talker held back until then travels unharmed
+        if (rs.quiet && p.prop != "C19") { w.count("fault.not_applied_in_quiet_phase"); continue; }
         if (m.kind == "drop") { dropped = true; w.count("fault.drop"); }
         else if (m.kind == "dup") { dup_delays.push_back(m.a); w.count("fault.dup"); }
         else if (m.kind == "stale") { dup_delays.push_back(m.a); w.count("fault.stale"); }
@@ -447,6 +450,7 @@ void exec_plan(const std::string &text, bool verbose) {
     w.lat_lo = p.lat_lo; w.lat_hi = p.lat_hi; w.cost_lo = p.cost_lo; w.cost_hi = p.cost_hi;
     w.rxq_cap = p.qcap;
     w.can_read0_p = p.read0;
+    w.clock_gran = p.clkgran ? p.clkgran : 1;
     w.t_origin = 1700000000ULL * 1000000000ULL + (p.rseed % 1000000007ULL) * 1000ULL;
     w.now = w.t_origin;
     if (sim::g_shm) snprintf(sim::g_shm->context, sizeof sim::g_shm->context, "%s|%s|%s", p.prop.c_str(), p.scen.c_str(), p.mode_str().c_str());
